@@ -429,6 +429,8 @@ def run_job(args):
                     break
                 res.failures.append(fail)
                 excluded.add(fail[0])
+                if os.environ.get("VERIF_FAST_FAIL"):
+                    break  # detection only (re-checks of stored seeded changes): no shrinking, no search behind the first failure
     except HarnessError as e:
         res.harness_error = str(e)
     except Exception as e:  # noqa
@@ -563,7 +565,7 @@ def _job_hypothesis(sub, tier, n, seed_value, res, tmpdir, excluded):
                   suppress_health_check=[HealthCheck.too_slow, HealthCheck.data_too_large,
                                          HealthCheck.large_base_example,
                                          HealthCheck.filter_too_much],
-                  phases=[Phase.generate, Phase.shrink])
+                  phases=[Phase.generate] if os.environ.get("VERIF_FAST_FAIL") else [Phase.generate, Phase.shrink])
     try:
         if sub.kind == "given":
             @seed(seed_value)
